@@ -71,7 +71,7 @@ pub fn model_apply(kv: &mut Kv, c: &Cmd) -> bool {
     }
 }
 
-#[derive(Clone, Debug)]
+#[derive(Clone, Debug, Serialize)]
 pub struct Applied {
     pub node: u32,
     pub incarnation: u32,
@@ -84,7 +84,7 @@ pub struct Applied {
     pub at_ms: u64,
 }
 
-#[derive(Clone, Debug)]
+#[derive(Clone, Debug, Serialize)]
 pub struct Installed {
     pub node: u32,
     pub incarnation: u32,
@@ -92,7 +92,7 @@ pub struct Installed {
     pub at_ms: u64,
 }
 
-#[derive(Default, Debug)]
+#[derive(Default, Debug, Serialize)]
 pub struct ApplyLog {
     pub applied: Vec<Applied>,
     pub installs: Vec<Installed>,
